@@ -260,6 +260,14 @@ def run(run):
     for ck in check_bin_time(run, Eb):
         fails += ck.failed
     finish_engine(E2, run)
+    # callee contracts: subset_* / split_* select with num_index / bool_index and gather with subset_descriptor (contracts generated
+    # by C10, discharged in this run too)
+    from contracts import C10
+    from contracts.common import new_engine
+    E10 = new_engine(run)
+    for ck in C10.check_selection_helpers(run, E10, pid='C11'):
+        fails += ck.failed
+    finish_engine(E10, run)
     run.trust('np.argsort(kind="stable") returns the stable sorting permutation; num_index / subset_descriptor contracts (C10 K6/K7) '
               'are uninterpreted at these call sites; their own bodies are under contract in C10 (C10/num_index, C10/bool_index, '
               'C10/subset_descriptor: discharged for all columns / values / index sequences)')
